@@ -20,7 +20,8 @@ class C16(BaseCheck):
              'scales.sink:RefCountedSink.Close', 'scales.sink:SharedSinkProvider.CreateSink')
   REQUIRED_ANCHORS = ANCHORS
   REQUIRED_CLASSES = ('singleton', 'refcount', 'shared', 'concurrent-first-requests', 'replaced-after-failure',
-                      'surplus-close', 'reopen-after-last-close', 'same-key', 'different-key')
+                      'surplus-close', 'reopen-after-last-close', 'same-key', 'different-key',
+                      'underlying-closed-while-held')
   QUICK_CASES = 1500
   THOROUGH_CASES = 18000
   QUICK_WALL = 40
@@ -313,7 +314,12 @@ class C16(BaseCheck):
       def __init__(self, props):
         super(Under, self).__init__()
         self.props = props
+        self.state_ = OPEN
         created.append(props['key'])
+
+      @property
+      def state(self):
+        return self.state_
 
       def AsyncProcessRequest(self, *a):
         pass
@@ -353,6 +359,10 @@ class C16(BaseCheck):
             if s is lst[0]:
               out.violate('shared:different-key-same-sink', 'keys %r and %r share one sink' % (k, k2), {})
         held.setdefault(k, []).append(s)
+      elif held.get(k) and rng.random() < 0.3 and k is not None:
+        # the shared connection dies while holders are alive: the key must still map to it
+        held[k][0].next_sink.state_ = CLOSED
+        classes.add('underlying-closed-while-held')
       elif held.get(k):
         held[k].pop()
         if not held[k]:
